@@ -669,6 +669,24 @@ Proof.
   exfalso. eapply Hb. reflexivity.
 Qed.
 
+(* once the termination handler has run (the flag is set), WHATEVER the task's cleanup code turns
+   the interruption into -- an Exception of its own, a BaseException, one that cannot even be
+   pickled -- leaves the loop: nothing is reported as a task failure, no further job is taken *)
+Definition task_raises (b : beh) : bool :=
+  match b with Raises _ | RaisesUnser _ | RaisesBase _ | Terminated _ => true | Returns _ | ReturnsUnser => false end.
+
+Theorem converted_interruption_still_exits c n q rest :
+  guard (maxtasks c) n = true -> task_ok (q_ty q) = true -> confirmed c q = true ->
+  q_term q = true -> task_raises (q_beh q) = true ->
+  exists x, cut_short x = 1 /\ loop c n (RMsg q :: rest) = (accept_events c q ++ [ERun (q_job q) (q_i q)], x, n).
+Proof.
+  intros G Hty Hc Ht Hr.
+  assert (He : exists x, task_escapes q = Some x).
+  { unfold task_escapes. destruct (q_beh q); cbn in Hr; try discriminate; rewrite ?Ht; eexists; reflexivity. }
+  destruct He as (x & He). exists x. split; [eapply task_escapes_kind; exact He|].
+  apply terminated_step; assumption.
+Qed.
+
 (* an unserialisable result: one failed put, then exactly one READY carrying the
    encoding error for the same job, and the loop goes on with the job counted *)
 Theorem unserialisable_step c n q rest :
